@@ -11,6 +11,7 @@ import (
 	"fmt"
 	"math"
 	"math/rand"
+	"net/http"
 	"net/http/httptest"
 	"reflect"
 	"strconv"
@@ -121,6 +122,14 @@ func writeWithEntityWriter(v entVal, codec string, pretty bool) []byte {
 	return rec.Body.Bytes()
 }
 
+// a write of the same kind whose underlying writer fails after budget bytes
+func failedWriteBefore(v entVal, codec string, pretty bool, budget int) {
+	restful.PrettyPrintResponses = pretty
+	resp := restful.NewResponse(&countingWriter{hdr: http.Header{}, budget: budget})
+	resp.SetRequestAccepts(mimeOf(codec))
+	safely(func() { resp.WriteEntity(v) })
+}
+
 func encodeBody(plain []byte, k entKind) []byte {
 	if k.Dmg == "empty" {
 		return []byte{}
@@ -177,6 +186,10 @@ func runEntitySeq(tw *traceWriter, r *rand.Rand, kinds []entKind, provider strin
 	for i, k := range kinds {
 		pretty := r.Intn(2) == 0
 		v := randomValue(r, k.Codec == "xml")
+		if r.Intn(3) == 0 {
+			// "whatever came before": another value was written to a client that went away after some bytes
+			failedWriteBefore(randomValue(r, k.Codec == "xml"), k.Codec, pretty, r.Intn(60))
+		}
 		plain := writeWithEntityWriter(v, k.Codec, pretty)
 		body := encodeBody(plain, k)
 		hdr := [][2]string{{"Content-Encoding", k.CE}}
